@@ -372,5 +372,5 @@ def _r2(program: Program, run: Run) -> None:
                                             f"a set operation whose base query is of another class nested in a {d.qualname} statement wraps differently",
                                             where=init.loc(), rule="R2")
     run.analysed["dialect_overrides_compared"] = n
-    if n < 8:
+    if n < 4:
         raise AnalysisError(f"instance count below floor: dialect overrides compared {n}")
